@@ -22,6 +22,7 @@ type gen struct {
 	fresh   int
 	hot     any // last written shared object (*mGlobal, *mTable, *mMem)
 	hotBy   string
+	hotSlot int // table slot written by the last tsetf (-1: none)
 }
 
 func (g *gen) n(lo, hi int, label string) int { return rapid.IntRange(lo, hi).Draw(g.t, label) }
@@ -649,8 +650,8 @@ func (g *gen) genSpec(k int) *ModSpec {
 
 // instStep appends an instantiation step and advances the generator's model with the outcome
 // wazero is expected to produce by its documented rules.
-func (g *gen) instStep(specIdx int, as string) {
-	st := Step{Op: "inst", Spec: specIdx, As: as, Bytes: g.pct(30, "instantiate-from-bytes")}
+func (g *gen) instStep(specIdx int, as string, bytesPct int) {
+	st := Step{Op: "inst", Spec: specIdx, As: as, Bytes: g.pct(bytesPct, "instantiate-from-bytes")}
 	g.c.Script = append(g.c.Script, st)
 	p := g.m.plan(g.c.Specs[specIdx], as)
 	if p.compileReject || !p.wzCompat || p.inst == nil || p.elemOOB >= 0 || len(p.nullOver) > 0 {
@@ -729,11 +730,15 @@ func (g *gen) argsFor(in *mInst, st *Step) {
 			k = len(in.ftab) + g.n(0, 1, "funcref-k-oob-by")
 		}
 		st.Args = []uint64{uint64(k)}
-	case "tnull", "tget", "htl", "tcall":
+	case "tnull", "tget", "htl", "tcall", "rtcall":
 		t := in.tables[st.Idx]
 		sl := g.slot(t, "slot")
 		st.Args = []uint64{sl}
-		if st.Acc == "htl" || st.Acc == "tcall" {
+		if g.hotSlot >= 0 && g.hot == any(t) && g.pct(60, "slot-just-written") {
+			sl = uint64(g.hotSlot)
+			st.Args = []uint64{sl}
+		}
+		if st.Acc == "htl" || st.Acc == "tcall" || st.Acc == "rtcall" {
 			if t.elem == wasmenc.FuncRef && sl < uint64(len(t.fn)) && t.fn[sl] != nil && g.pct(75, "matching-sig") {
 				st.Sig = t.fn[sl].f.sig
 			} else if st.Acc == "htl" {
@@ -830,7 +835,7 @@ func (g *gen) accStep() {
 						pool = append(pool, a)
 					}
 				case *mTable:
-					if a.Acc[0] == 't' {
+					if a.Acc[0] == 't' || a.Acc == "rtcall" {
 						pool = append(pool, a)
 					}
 				case *mMem:
@@ -889,11 +894,80 @@ func (g *gen) accStep() {
 			g.hot = in.mem
 		}
 		g.hotBy = in.name
+		g.hotSlot = -1
+		if st.Acc == "tsetf" {
+			g.hotSlot = int(arg(st.Args, 0))
+		}
 	}
 }
 
+// siblingCall emits the scenario "instance A puts one of its OWN functions (preferably one
+// with side effects on A's state) into a funcref table it shares with instance B; B calls the
+// slot" — through call_indirect or return_call_indirect. Pairs of instances of the same module
+// specification (same CompiledModule unless instantiated from bytes) are preferred: the callee
+// must run on A's globals/memory whoever the caller is.
+func (g *gen) siblingCall() bool {
+	type pair struct {
+		a, b   *mInst
+		ia, ib int
+	}
+	var same, other []pair
+	for _, na := range g.m.order {
+		a := g.m.live[na]
+		if len(a.funcs) == a.v.nIF {
+			continue
+		}
+		for ia, t := range a.tables {
+			if t.elem != wasmenc.FuncRef || len(t.fn) == 0 {
+				continue
+			}
+			for _, nb := range g.m.order {
+				b := g.m.live[nb]
+				ib := indexOf(b, t)
+				if b == a || ib < 0 {
+					continue
+				}
+				if a.spec == b.spec {
+					same = append(same, pair{a, b, ia, ib})
+				} else {
+					other = append(other, pair{a, b, ia, ib})
+				}
+			}
+		}
+	}
+	var p pair
+	switch {
+	case len(same) > 0 && (len(other) == 0 || g.pct(75, "sibling-same-spec")):
+		p = pick(g, same, "sibling-pair")
+	case len(other) > 0:
+		p = pick(g, other, "other-pair")
+	default:
+		return false
+	}
+	var own, eff []int // own functions, and those with side effects
+	for i := p.a.v.nIF; i < len(p.a.funcs); i++ {
+		own = append(own, i)
+		if len(p.a.funcs[i].ops) > 0 {
+			eff = append(eff, i)
+		}
+	}
+	fi := pick(g, own, "sibling-function")
+	if len(eff) > 0 && g.pct(80, "sibling-effectful") {
+		fi = pick(g, eff, "sibling-effectful-function")
+	}
+	slot := uint64(g.n(0, len(p.a.tables[p.ia].fn)-1, "sibling-slot"))
+	set := Step{Op: "acc", Inst: p.a.name, Acc: "tsetf", Idx: p.ia, Args: []uint64{slot, uint64(fi + 1)}}
+	call := Step{Op: "acc", Inst: p.b.name, Acc: pick(g, []string{"tcall", "rtcall", "rtcall"}, "sibling-call-form"), Idx: p.ib, Sig: p.a.funcs[fi].sig, Args: []uint64{slot}}
+	for _, st := range []Step{set, call} {
+		g.c.Script = append(g.c.Script, st)
+		g.m.eval(st)
+	}
+	g.hot, g.hotBy, g.hotSlot = p.a.tables[p.ia], p.a.name, int(slot)
+	return true
+}
+
 func genCase(t *rapid.T) *Case {
-	g := &gen{t: t, c: &Case{}}
+	g := &gen{t: t, c: &Case{}, hotSlot: -1}
 	if g.pct(15, "small-memory-limit") {
 		g.c.Limit = 3
 	}
@@ -909,15 +983,31 @@ func genCase(t *rapid.T) *Case {
 		case newMod:
 			k := len(g.c.Specs)
 			g.c.Specs = append(g.c.Specs, g.genSpec(k))
-			g.instStep(k, g.c.Specs[k].Name)
-		case g.pct(6, "re-instantiate"):
+			g.instStep(k, g.c.Specs[k].Name, 30)
+		case g.pct(10, "re-instantiate"):
 			k := g.n(0, len(g.c.Specs)-1, "re-spec")
+			if g.pct(60, "re-spec-with-shared-table") {
+				// siblings that import the same funcref table (and define functions) are the interesting ones
+				var ks []int
+				for i, sp := range g.c.Specs {
+					for _, im := range sp.Imports {
+						if im.Kind == kTable && im.Elem == wasmenc.FuncRef && len(sp.Funcs) > 0 {
+							ks = append(ks, i)
+							break
+						}
+					}
+				}
+				if len(ks) > 0 {
+					k = pick(g, ks, "re-spec-sharing")
+				}
+			}
 			as := g.c.Specs[k].Name
 			if _, live := g.m.live[as]; live {
 				g.fresh++
 				as = fmt.Sprintf("%sr%d", as, g.fresh)
 			}
-			g.instStep(k, as)
+			g.instStep(k, as, 10) // mostly the same CompiledModule instantiated again
+		case g.pct(10, "sibling-call") && g.siblingCall():
 		case g.pct(2, "gc"):
 			g.c.Script = append(g.c.Script, Step{Op: "gc"})
 		default:
